@@ -172,6 +172,43 @@ def run_config(pid, name, consts, invariants, actprops, workdir, obs_sample, rep
     return info
 
 
+def run_random(pid, name, rc, runs, steps, seed, workdir, preds):
+    """Direction B: seeded random schedules on the real pool; the recorded trace is validated against
+    ManagedTrace.tla (all invariants evaluated on the observed behaviour) and the observation log is
+    judged by ManagedObs.tla."""
+    import tracecheck
+    os.makedirs(workdir, exist_ok=True)
+    rcf = os.path.join(workdir, name + ".rand.json")
+    json.dump(rc, open(rcf, "w"))
+    trace = os.path.join(workdir, name + ".trace.ndjson")
+    obs = os.path.join(workdir, name + ".randobs.ndjson")
+    t0 = time.time()
+    p = subprocess.run([MH, "random", "--cfg", rcf, "--runs", str(runs), "--seed", str(seed), "--steps", str(steps),
+                        "--trace", trace, "--obs", obs], capture_output=True, text=True)
+    if p.returncode != 0:
+        sys.stderr.write(p.stdout[-2000:] + p.stderr[-4000:])
+        raise ToolError("random driver failed on %s" % name)
+    drv = json.loads(p.stdout.strip().splitlines()[-1])
+    tv = tracecheck.validate(trace, rc, os.path.join(workdir, "trace_" + name))
+    hcfg = dict(rc["cfg"])
+    mon = obsmon.monitor(obs, hcfg, os.path.join(workdir, "obsmon_rand_" + name), spec="ManagedObs.tla")
+    rejected_runs = sorted(set(r["run"] for r in tv["rejected"]))
+    info = {"config": "random:" + name, "kind": "managed", "states": tv["states"], "transitions": max(tv["events"], 1), "depth": 0,
+            "tlc_s": tv["tlc_s"], "actions_taken": {}, "runs": runs, "random_steps": drv["steps"], "hung": drv["hung"],
+            "conform": runs - len(rejected_runs), "nonconform": len(rejected_runs), "trace_events": tv["events"],
+            "first_divergences": tv["rejected"][:3], "spec_violations_on_trace": tv["violated"],
+            "replay_s": round(time.time() - t0, 2), "obs_events": mon["events"], "viol": mon["viol"],
+            "random": {"rc": rc, "seed": seed, "steps": steps}}
+    samples = []
+    with open(trace) as f:
+        for i, line in enumerate(f):
+            if 1 <= i <= 14:
+                e = json.loads(line)
+                samples.append("%s(%s)" % (e["act"], ",".join([e["task"]] + [json.dumps(x) for x in e["x"]])))
+    info["case_samples"] = [samples]
+    return info
+
+
 def extract_path(paths_file, pid):
     """Re-expand one path of a compact paths file into a self-contained replay file."""
     labels, nodes, head = None, {}, None
@@ -265,6 +302,18 @@ def managed_check(pid, tier, seed):
                 if pred in preds:
                     for run, i in where:
                         violations.append((name, pred, run, i))
+    for (name, rcfg, runs, steps) in spec.get("random", {}).get(tier, []):
+        log("[%s] random schedules %s: %d runs x <= %d steps on the real pool, trace validation + monitor ..." % (pid, name, runs, steps))
+        info = run_random(pid, name, rcfg, runs, steps, seed, workdir, spec["preds"])
+        infos.append(info)
+        log("[%s]   %d steps executed; trace: %d events, %d runs accepted, %d rejected; monitor: %d events"
+            % (pid, info["random_steps"], info["trace_events"], info["conform"], info["nonconform"], info["obs_events"]))
+        if info["spec_violations_on_trace"]:
+            log("[%s]   invariants of ManagedPool violated on the observed behaviour: %s" % (pid, info["spec_violations_on_trace"]))
+        for pred, where in info["viol"].items():
+            if pred in spec["preds"]:
+                for run, i in where:
+                    violations.append((info["config"], pred, run, i))
     # verdict
     rc = 0
     vdir = os.path.join(ROOT, "work", "violations")
@@ -282,6 +331,14 @@ def managed_check(pid, tier, seed):
             json.dump({"kind": "case", "property": pid, "table": name, "cases": info["cases_file"], "case": run}, open(fn, "w"))
             print("VIOLATION property=%s replay=%s" % (pid, fn), flush=True)
             log("[%s]   table %s: the code disagrees with the specification on %s" % (pid, name, json.dumps(run)[:400]))
+            nviol += 1
+            rc = 1
+            continue
+        if "random" in info:
+            fn = os.path.join(vdir, "%s_%s_%s_run%d.json" % (pid, name.replace(":", "_"), pred, run))
+            json.dump({"kind": "random", "property": pid, "predicate": pred, "run": run, "event": i, **info["random"]}, open(fn, "w"))
+            print("VIOLATION property=%s replay=%s" % (pid, fn), flush=True)
+            log("[%s]   predicate %s is false at event %d of random run %d" % (pid, pred, i, run))
             nviol += 1
             rc = 1
             continue
@@ -334,7 +391,55 @@ def managed_check(pid, tier, seed):
 
 def replay_file(fn):
     rp = json.load(open(fn))
-    build_harness()
+    if rp.get("kind") == "random":
+        build_harness()
+        workdir = os.path.join(ROOT, "work", "replay")
+        shutil.rmtree(workdir, ignore_errors=True)
+        os.makedirs(workdir)
+        rcf = os.path.join(workdir, "rand.json")
+        json.dump(rp["rc"], open(rcf, "w"))
+        obs = os.path.join(workdir, "obs.ndjson")
+        subprocess.run([MH, "random", "--cfg", rcf, "--runs", "1", "--start", str(rp["run"]), "--seed", str(rp["seed"]),
+                        "--steps", str(rp["steps"]), "--trace", os.path.join(workdir, "trace.ndjson"), "--obs", obs], check=True)
+        mon = obsmon.monitor(obs, rp["rc"]["cfg"], os.path.join(workdir, "obsmon"), spec="ManagedObs.tla")
+        evs = [json.loads(l) for l in open(obs)]
+        rc = 0
+        for pred, where in sorted(mon["viol"].items()):
+            for run, i in where[:2]:
+                e = evs[i] if i < len(evs) else {}
+                print("predicate %s false at event %d: %s" % (pred, i, json.dumps({k: e.get(k) for k in
+                      ("task", "act", "op", "done", "result", "max", "live", "creating", "out", "idle", "blocked", "quiescent",
+                       "st_max", "st_size", "st_avail", "st_wait", "closed", "probe_got", "probe_extra", "stranded")})))
+            if pred in configs.PROPS.get(rp.get("property", ""), {}).get("preds", [pred]):
+                rc = 1
+        if rc:
+            print("VIOLATION property=%s replay=%s" % (rp.get("property", "?"), fn))
+        return rc
+    if rp.get("kind") == "case":
+        part = None
+        for pid_, sp in configs.PROPS.items():
+            for tier_ in sp["configs"].values():
+                for e in tier_:
+                    if isinstance(e, dict) and e["name"] == rp["table"]:
+                        part = e
+        uses_xh = part and part.get("binary") == "xh"
+        build_harness("xh" if uses_xh else "mh")
+        workdir = os.path.join(ROOT, "work", "replay")
+        shutil.rmtree(workdir, ignore_errors=True)
+        os.makedirs(workdir)
+        cf = os.path.join(workdir, "one.cases.jsonl")
+        open(cf, "w").write(json.dumps(rp["case"]["case"]) + "\n")
+        res = os.path.join(workdir, "result.json")
+        subprocess.run([XH if uses_xh else MH, "cases", part["cases"], cf, "--result", res], check=True)
+        rr = json.load(open(res))
+        for m in rr["first_mismatches"]:
+            print("the code disagrees with the table:", json.dumps(m.get("problems", m))[:1000])
+        if rr["mismatch"]:
+            print("VIOLATION property=%s replay=%s" % (rp.get("property", "?"), fn))
+            return 1
+        print("the case agrees with the table")
+        return 0
+    build_harness("xh" if rp.get("pool") in ("syncmgr", "redismgr", "pgmgr") else "mh")
     workdir = os.path.join(ROOT, "work", "replay")
     shutil.rmtree(workdir, ignore_errors=True)
     os.makedirs(workdir)
@@ -344,7 +449,8 @@ def replay_file(fn):
         f.write(json.dumps({"id": 0, "steps": rp["steps"]}) + "\n")
     res = os.path.join(workdir, "result.json")
     obs = os.path.join(workdir, "obs.ndjson")
-    subprocess.run([MH, "replay", pf, "--result", res, "--obs", obs, "--threads", "1", "--obs-sample", "1"], check=True)
+    subprocess.run([XH if rp.get("pool") in ("syncmgr", "redismgr", "pgmgr") else MH, "replay", pf, "--result", res, "--obs", obs,
+                    "--threads", "1", "--obs-sample", "1"], check=True)
     rr = json.load(open(res))
     print("conforms to the specification:", rr["conform"] == 1)
     for d in rr["first_divergences"]:
